@@ -180,6 +180,33 @@ pub type T3B = T3<XU, SB, WXB>;
 pub type T3S = T3<XU, SO, WXB>;
 pub type CF = Conflict<u8>;
 
+// ---- degenerate-size representations: zero-length arrays, empty/None containers nested as values
+pub type SA0 = SetUnion<ArraySet<u8, 0>>;
+pub type MA0H = MapUnion<ArrayMap<u8, SH, 0>>;
+pub type MSA0 = MapUnion<SingletonMap<u8, SA0>>;
+pub type MVA0 = MapUnion<VecMap<u8, SA0>>;
+pub type MSE_ = MapUnion<SingletonMap<u8, SE>>;
+pub type MA1A0 = MapUnion<ArrayMap<u8, SA0, 1>>;
+pub type MOA0 = MapUnion<OptionMap<u8, SA0>>;
+pub type NA0X = MapUnion<ArrayMap<u8, XU, 0>>;
+pub type WA0 = WithBot<SA0>;
+pub type WE = WithBot<SE>;
+pub type PSA0 = MapUnion<SingletonMap<u8, WA0>>;
+pub type PA0W = MapUnion<ArrayMap<u8, WH, 0>>;
+pub type QA0 = MapUnion<SingletonMap<u8, MA0H>>;
+pub type TA0 = WithTop<SA0>;
+pub type TWA0 = WithTop<WithBot<SA0>>;
+pub type WTA0 = WithBot<WithTop<SA0>>;
+pub type PA0 = Pair<SA0, XU>;
+pub type DA0 = DomPair<XU, SA0>;
+pub type DNA0 = DomPair<Min<u8>, WA0>;
+pub type VA0 = VecUnion<SA0>;
+pub type VO = VecUnion<SO>;
+pub type VMA0 = VecUnion<MA0H>;
+pub type UA0 = UnionFind<ArrayMap<u8, Cell<u8>, 0>>;
+pub type D2A0 = D2<ArraySet<u8, 0>, u8>;
+pub type T3A0 = T3<XU, SA0, WXB>;
+
 // ---------------------------------------------------------------------------------------------
 // C04 families (self-capable representations first; every self merges / converts from every listed
 // representation)
@@ -239,7 +266,7 @@ pub trait UfSame: Lat {
     fn same_(&self, a: u8, b: u8) -> bool;
 }
 macro_rules! uf_same { ($($U:ty),*) => { $( impl UfSame for $U { fn same_(&self, a: u8, b: u8) -> bool { self.same(a, b).into_reveal() } } )* } }
-uf_same!(UV, UA2, US, UO, UE);
+uf_same!(UV, UA2, US, UO, UE, UA0);
 fn ro_same_of<U: UfSame>(r: &R, n: u8) -> Option<Result<Vec<bool>, String>> {
     let u = U::build(r)?;
     Some(vcommon::catch(|| (0..n).flat_map(|a| (0..n).map(move |b| (a, b))).map(|(a, b)| u.same_(a, b)).collect()))
@@ -265,32 +292,32 @@ impl<A: Lat, B: Lat> FirstShape for (A, B) {
     }
 }
 
-family!(fam_set; selfs: [SH, SB]; others: [SV, SRaw, SA1, SA2, SA3, SS, SO, SE]);
-family!(fam_map_set; selfs: [MHH, MBB]; others: [MVH, MA2S, MA1B, MSS, MSH, MOO, MEH]);
-family!(fam_map_max; selfs: [NHX, NBX]; others: [NVX, NA2X, NSX, NOX]);
-family!(fam_map_withbot; selfs: [PHW, PBW]; others: [PVW, PSW]);
-family!(fam_map_map; selfs: [QH, QB]; others: [QS]);
+family!(fam_set; selfs: [SH, SB]; others: [SV, SRaw, SA0, SA1, SA2, SA3, SS, SO, SE]);
+family!(fam_map_set; selfs: [MHH, MBB]; others: [MVH, MA2S, MA1B, MSS, MSH, MOO, MEH, MA0H, MSA0, MVA0, MSE_, MA1A0, MOA0]);
+family!(fam_map_max; selfs: [NHX, NBX]; others: [NVX, NA2X, NSX, NOX, NA0X]);
+family!(fam_map_withbot; selfs: [PHW, PBW]; others: [PVW, PSW, PSA0, PA0W]);
+family!(fam_map_map; selfs: [QH, QB]; others: [QS, QA0]);
 family!(fam_map_pair; selfs: [RH, RB_]; others: [RS]);
 family!(fam_max_u8; selfs: [XU]; others: []);
 family!(fam_min_i8; selfs: [Min<i8>]; others: []);
-family!(fam_withbot_set; selfs: [WH, WB]; others: [WS, WO]);
-family!(fam_withtop_set; selfs: [TH, TB]; others: [TS]);
-family!(fam_withbot_withtop; selfs: [WTH, WTB]; others: [WTS]);
-family!(fam_withtop_withbot; selfs: [TWH]; others: [TWS]);
+family!(fam_withbot_set; selfs: [WH, WB]; others: [WS, WO, WA0, WE]);
+family!(fam_withtop_set; selfs: [TH, TB]; others: [TS, TA0]);
+family!(fam_withbot_withtop; selfs: [WTH, WTB]; others: [WTS, WTA0]);
+family!(fam_withtop_withbot; selfs: [TWH]; others: [TWS, TWA0]);
 family!(fam_withtop_maxbool; selfs: [TXB]; others: []);
-family!(fam_pair; selfs: [PA, PB]; others: [PS]);
-family!(fam_dompair_total; selfs: [DA, DB]; others: [DS]);
-family!(fam_dompair_min; selfs: [DN]; others: [DNS]);
+family!(fam_pair; selfs: [PA, PB]; others: [PS, PA0]);
+family!(fam_dompair_total; selfs: [DA, DB]; others: [DS, DA0]);
+family!(fam_dompair_min; selfs: [DN]; others: [DNS, DNA0]);
 family!(fam_dompair_partial; selfs: [DP]; others: [DPS]);
-family!(fam_vec_set; selfs: [VH, VB]; others: [VS]);
-family!(fam_vec_map; selfs: [VM]; others: [VMS]);
+family!(fam_vec_set; selfs: [VH, VB]; others: [VS, VA0, VO]);
+family!(fam_vec_map; selfs: [VM]; others: [VMS, VMA0]);
 family!(fam_vec_max; selfs: [VX]; others: []);
 family!(fam_conflict; selfs: [CF]; others: []);
-family!(fam_derive2; selfs: [D2H, D2B]; others: [D2S]);
-family!(fam_derive3; selfs: [T3A, T3B]; others: [T3S]);
+family!(fam_derive2; selfs: [D2H, D2B]; others: [D2S, D2A0]);
+family!(fam_derive3; selfs: [T3A, T3B]; others: [T3S, T3A0]);
 family!(fam_derive3_concrete; selfs: [D3]; others: []);
 family!(fam_unit; selfs: [()]; others: []);
-family!(fam_union_find; selfs: [UH, UB]; others: [UV, UA2, US, UO, UE]; uf);
+family!(fam_union_find; selfs: [UH, UB]; others: [UV, UA2, US, UO, UE, UA0]; uf);
 
 pub fn families() -> Vec<Family> {
     vec![
@@ -316,48 +343,78 @@ pub fn entries() -> Vec<Entry> {
     ]);
     each!(v, k_c01_record, [DP]);
     // heterogeneous operands
-    cross!(v, k_c01h, [SH, SB], [SV, SRaw, SA2, SS, SO]);
-    cross!(v, k_c01h, [MHH, MBB], [MVH, MA2S, MSS, MSH, MOO]);
+    cross!(v, k_c01h, [SH, SB], [SV, SRaw, SA2, SS, SO, SA0, SE]);
+    cross!(v, k_c01h, [MHH, MBB], [MVH, MA2S, MSS, MSH, MOO, MA0H, MSA0, MSE_, MOA0]);
     cross!(v, k_c01h, [NHX, NBX], [NVX, NA2X, NSX, NOX]);
-    cross!(v, k_c01h, [PHW], [PVW, PSW]);
+    cross!(v, k_c01h, [PHW], [PVW, PSW, PSA0]);
     cross!(v, k_c01h, [QH], [QS, QB]);
-    cross!(v, k_c01h, [WH], [WS, WO, WB]);
+    cross!(v, k_c01h, [WH], [WS, WO, WB, WA0, WE]);
     cross!(v, k_c01h, [TH], [TS, TB]);
     cross!(v, k_c01h, [PA], [PS, PB]);
     cross!(v, k_c01h, [DA], [DS, DB]);
-    cross!(v, k_c01h, [VH], [VS, VB]);
+    cross!(v, k_c01h, [VH], [VS, VB, VA0, VO]);
     cross!(v, k_c01h, [UH, UB], [UV, UA2, US, UO]);
     cross!(v, k_c01h, [D2H], [D2S, D2B]);
     cross!(v, k_c01h, [T3A], [T3S, T3B]);
 
     // ---- C02: every (Self, Other) for which Merge<Other> exists in the table
-    cross!(v, k_c02, [SH, SB], [SH, SB, SV, SRaw, SA1, SA2, SA3, SS, SO, SE]);
-    cross!(v, k_c02, [MHH, MBB], [MHH, MBB, MVH, MA2S, MA1B, MSS, MSH, MOO, MEH]);
-    cross!(v, k_c02, [NHX, NBX], [NHX, NBX, NVX, NA2X, NSX, NOX]);
-    cross!(v, k_c02, [PHW, PBW], [PHW, PBW, PVW, PSW]);
-    cross!(v, k_c02, [QH, QB], [QH, QB, QS]);
+    cross!(v, k_c02, [SH, SB], [SH, SB, SV, SRaw, SA0, SA1, SA2, SA3, SS, SO, SE]);
+    cross!(v, k_c02, [MHH, MBB], [MHH, MBB, MVH, MA2S, MA1B, MSS, MSH, MOO, MEH, MA0H, MSA0, MVA0, MSE_, MA1A0, MOA0]);
+    cross!(v, k_c02, [NHX, NBX], [NHX, NBX, NVX, NA2X, NSX, NOX, NA0X]);
+    cross!(v, k_c02, [PHW, PBW], [PHW, PBW, PVW, PSW, PSA0, PA0W]);
+    cross!(v, k_c02, [QH, QB], [QH, QB, QS, QA0]);
     cross!(v, k_c02, [RH, RB_], [RH, RB_, RS]);
     each!(v, k_c02s, [XU, Max<i8>, Max<bool>, Max<char>, Max<u64>, Min<u8>, Min<i8>, Min<bool>, Min<char>, Min<u64>, WXU, WXB, TXU, TXB, TNB, WWH, WTX, PTX, PHH, DX, VX, VW, CF, D3, ()]);
-    cross!(v, k_c02, [WH, WB], [WH, WB, WS, WO]);
-    cross!(v, k_c02, [TH, TB], [TH, TB, TS]);
-    cross!(v, k_c02, [WTH, WTB], [WTH, WTB, WTS]);
-    cross!(v, k_c02, [TWH], [TWH, TWS]);
-    cross!(v, k_c02, [PA, PB], [PA, PB, PS]);
-    cross!(v, k_c02, [DA, DB], [DA, DB, DS]);
-    cross!(v, k_c02, [DN], [DN, DNS]);
+    cross!(v, k_c02, [WH, WB], [WH, WB, WS, WO, WA0, WE]);
+    cross!(v, k_c02, [TH, TB], [TH, TB, TS, TA0]);
+    cross!(v, k_c02, [WTH, WTB], [WTH, WTB, WTS, WTA0]);
+    cross!(v, k_c02, [TWH], [TWH, TWS, TWA0]);
+    cross!(v, k_c02, [PA, PB], [PA, PB, PS, PA0]);
+    cross!(v, k_c02, [DA, DB], [DA, DB, DS, DA0]);
+    cross!(v, k_c02, [DN], [DN, DNS, DNA0]);
     cross!(v, k_c02, [DP], [DP, DPS]);
-    cross!(v, k_c02, [VH, VB], [VH, VB, VS]);
-    cross!(v, k_c02, [VM], [VM, VMS]);
-    cross!(v, k_c02, [UH, UB], [UH, UB, UV, UA2, US, UO, UE]);
-    cross!(v, k_c02, [D2H, D2B], [D2H, D2B, D2S]);
-    cross!(v, k_c02, [T3A, T3B], [T3A, T3B, T3S]);
+    cross!(v, k_c02, [VH, VB], [VH, VB, VS, VA0, VO]);
+    cross!(v, k_c02, [VM], [VM, VMS, VMA0]);
+    cross!(v, k_c02, [UH, UB], [UH, UB, UV, UA2, US, UO, UE, UA0]);
+    cross!(v, k_c02, [D2H, D2B], [D2H, D2B, D2S, D2A0]);
+    cross!(v, k_c02, [T3A, T3B], [T3A, T3B, T3S, T3A0]);
 
     // ---- C03: order / equality for every (Self, Other) with PartialOrd<Other> + PartialEq<Other>
-    cross!(v, k_c03, [SH, SB, SV, SA2, SS, SO, SE], [SH, SB, SV, SA2, SS, SO, SE]);
+    cross!(v, k_c03, [SH, SB, SV, SA0, SA2, SS, SO, SE], [SH, SB, SV, SA0, SA2, SS, SO, SE]);
     cross!(v, k_c03, [SA1, SA3], [SH, SB, SA1, SA3]);
     cross!(v, k_c03, [SH, SB], [SA1, SA3]);
     cross!(v, k_c03, [MHH, MBB, MVH, MA2S, MSS, MSH, MOO, MEH], [MHH, MBB, MVH, MA2S, MSS, MSH, MOO, MEH]);
     cross!(v, k_c03, [MA1B], [MHH, MBB, MA1B]);
+    cross!(v, k_c03, [MA0H, MSA0, MVA0, MSE_, MA1A0, MOA0], [MHH, MBB, MSH, MOO, MA0H, MSA0, MVA0, MSE_, MA1A0, MOA0]);
+    cross!(v, k_c03, [MHH, MBB, MSH, MOO], [MA0H, MSA0, MVA0, MSE_, MA1A0, MOA0]);
+    cross!(v, k_c03, [NA0X], [NHX, NBX, NSX, NA0X]);
+    cross!(v, k_c03, [NHX, NBX, NSX], [NA0X]);
+    cross!(v, k_c03, [PSA0, PA0W], [PHW, PBW, PSW, PSA0, PA0W]);
+    cross!(v, k_c03, [PHW, PBW, PSW], [PSA0, PA0W]);
+    cross!(v, k_c03, [QA0], [QH, QB, QS, QA0]);
+    cross!(v, k_c03, [QH, QB, QS], [QA0]);
+    cross!(v, k_c03, [WA0, WE], [WH, WB, WS, WO, WA0, WE]);
+    cross!(v, k_c03, [WH, WB, WS, WO], [WA0, WE]);
+    cross!(v, k_c03, [TA0], [TH, TB, TS, TA0]);
+    cross!(v, k_c03, [TH, TB, TS], [TA0]);
+    cross!(v, k_c03, [WTA0], [WTH, WTB, WTA0]);
+    cross!(v, k_c03, [WTH, WTB], [WTA0]);
+    cross!(v, k_c03, [TWA0], [TWH, TWS, TWA0]);
+    cross!(v, k_c03, [TWH, TWS], [TWA0]);
+    cross!(v, k_c03, [PA0], [PA, PB, PS, PA0]);
+    cross!(v, k_c03, [PA, PB, PS], [PA0]);
+    cross!(v, k_c03, [DA0], [DA, DB, DA0]);
+    cross!(v, k_c03, [DA, DB], [DA0]);
+    cross!(v, k_c03, [DNA0], [DN, DNA0]);
+    cross!(v, k_c03, [DN], [DNA0]);
+    cross!(v, k_c03, [VA0, VO], [VH, VB, VS, VA0, VO]);
+    cross!(v, k_c03, [VH, VB, VS], [VA0, VO]);
+    cross!(v, k_c03, [VMA0], [VM, VMS, VMA0]);
+    cross!(v, k_c03, [VM, VMS], [VMA0]);
+    cross!(v, k_c03, [D2A0], [D2H, D2B, D2A0]);
+    cross!(v, k_c03, [D2H, D2B], [D2A0]);
+    cross!(v, k_c03, [T3A0], [T3A, T3B, T3A0]);
+    cross!(v, k_c03, [T3A, T3B], [T3A0]);
     cross!(v, k_c03, [MHH, MBB], [MA1B]);
     cross!(v, k_c03, [NHX, NBX, NVX, NA2X, NSX, NOX], [NHX, NBX, NVX, NA2X, NSX, NOX]);
     cross!(v, k_c03, [PHW, PBW, PVW, PSW], [PHW, PBW, PVW, PSW]);
@@ -404,14 +461,16 @@ pub fn entries() -> Vec<Entry> {
         XU, Max<i8>, Max<bool>, Max<char>, Max<u64>, Min<u8>, Min<i8>, Min<bool>, Min<char>, Min<u64>,
         WH, WB, WS, WO, WXU, WXB, TH, TB, TS, TXU, TXB, TNB, WTH, WTB, WTS, TWH, TWS, WWH, WTX,
         PA, PB, PS, PTX, PHH, DA, DB, DS, DN, DNS, DX, DP, DPS, VX, VH, VB, VS, VM, VMS, VW,
-        UH, UB, UV, UA2, US, UO, UE, CF, D2H, D2B, D2S, D3, T3A, T3B, T3S, ()
+        UH, UB, UV, UA2, US, UO, UE, CF, D2H, D2B, D2S, D3, T3A, T3B, T3S, (),
+        SA0, MA0H, MSA0, MSE_, MA1A0, MOA0, NA0X, WA0, WE, PSA0, PA0W, QA0, TA0, TWA0, WTA0, PA0, DA0, DNA0, VA0, VO, VMA0, UA0, D2A0, T3A0
     ]);
     // Default is bottom
     each!(v, k_c03d, [
         SH, SB, SO, SE, MHH, MBB, MOO, MEH, NHX, NBX, NOX, PHW, PBW, QH, QB, RH, RB_,
         XU, Max<i8>, Max<bool>, Max<char>, Max<u64>, Min<u8>, Min<i8>, Min<bool>, Min<char>, Min<u64>,
         WH, WB, WS, WO, WXU, WXB, TH, TB, TXU, TXB, TNB, WTH, WTB, WTS, TWH, TWS, WWH, WTX,
-        PA, PB, PTX, PHH, DA, DB, DN, DX, DP, VX, VH, VB, VS, VM, VMS, VW, UH, UB, UO, UE, D3, ()
+        PA, PB, PTX, PHH, DA, DB, DN, DX, DP, VX, VH, VB, VS, VM, VMS, VW, UH, UB, UO, UE, D3, (),
+        MOA0, WA0, WE, WTA0, VA0, VO, VMA0
     ]);
 
     // ---- C06: every Atomize type with a Default
